@@ -2,6 +2,10 @@ TOK_NOTE = ("Trusted base: the analyser's model of the Python subset used by Str
             "Gauss/Fourier-Motzkin core (no external solver); frames opaque, validator an arbitrary deterministic oracle; "
             "Python list/int semantics. Not a runtime check: nothing of auditok is imported or executed.")
 ENGINES = [
+    dict(name='E4-provenance', path='sa/symex.py sa/pat.py sa/facts.py sa/roles.py', serves_properties=['C05', 'C06', 'C07', 'C09', 'C11', 'C13', 'C15', 'C16', 'C17', 'C18', 'C19'],
+         kind_free_text='program model (classes, MRO, imports, alias families) + path-sensitive symbolic evaluator producing provenance terms, effects and guards; AC pattern matching with audio-parameter roles'),
+    dict(name='E5-nullness', path='sa/nullness.py', serves_properties=['C10', 'C18'], kind_free_text='nullness of read() results with interprocedural dereference/return summaries'),
+    dict(name='E6-effects', path='sa/effects.py', serves_properties=['C17', 'C19', 'C20'], kind_free_text='transitive write-effect analysis over resolved callees'),
     dict(name='E3-tokenizer', path='sa/absint.py sa/tokenizer.py sa/linear.py sa/tokrun.py', serves_properties=['C01', 'C02', 'C03', 'C04', 'C08', 'C20'],
          kind_free_text='AST-driven abstract interpreter of StreamTokenizer + Houdini invariant inference over unit-typed linear templates; entailment by own Gaussian/Fourier-Motzkin elimination'),
 ]
@@ -23,7 +27,33 @@ CHECKS = [
          text='Proof that, for init_min <= 1, every step of the automaton produces the events of the reference greedy-segmentation step (frame kept, token start/end, open length, continuation) in every reachable abstract state.',
          note=TOK_NOTE + ' The 20-line reference step is the operational reading of C04 (by inspection; printed in the evidence).'),
 ]
+STRUCT_NOTE = ("Decides structural necessary conditions from the current source (path-sensitive provenance terms, nullness, roles, guards); "
+               "the behavioural equality itself is a runtime value that is NOT computed -- see the 'explanation' field of the evidence for exactly which clauses are decided. "
+               "Trusted: the analyser's path/term evaluator (sa/symex.py) and Python/library semantics. Nothing of auditok is imported or executed.")
+CHECKS += [
+    dict(id='C05', engine='E4-provenance', level='other', design_ref='DESIGN.md 3.4, 4.5',
+         technique='static analysis: path-sensitive provenance terms of split() and AudioRegion construction, audio-parameter role rule over all call sites',
+         text='Decides the wiring of split() on every returning path (data = join of token frames, start = start index x effective window, parameters from the tokenized source, lazy generator, argument roles). Byte equality is the composition C01 o C10 (argued).',
+         note=STRUCT_NOTE),
+    dict(id='C06', engine='E4-provenance', level='other', design_ref='DESIGN.md 4.6, B.2',
+         technique='static analysis: provenance of the three duration->window conversions (rounding function, sign of tolerance, window source) and guard-table extraction of split() by path enumeration',
+         text='Decides rounding direction and tolerance sign at the conversion sites, the window source, and that split() raises ValueError exactly for the documented guards. Float numerics are not decided.',
+         note=STRUCT_NOTE),
+    dict(id='C08', engine='E3-tokenizer + E4', level='other', design_ref='DESIGN.md 4.8',
+         technique='static analysis: abstract interpretation events (one read per iteration, same-iteration hand-over, single end-of-stream, latency bound as entailment) plus structural laziness rules on tokenize()/split()',
+         text='Proves one read per iteration, hand-over in the deciding iteration, the latency bound max(K,0)+1 and single end-of-stream read for all states; decides that tokenize modes are thin wrappers and split() is lazy.',
+         note=TOK_NOTE),
+    dict(id='C10', engine='E5-nullness + E4', level='other', design_ref='DESIGN.md 3.5, 4.10',
+         technique='static analysis: nullness dataflow of read() results over the reader stack, provenance of block/hop/limiter formulas, wrapper nesting on all configuration paths, guard extraction',
+         text='Decides that no read() result is dereferenced unguarded in the reader stack, the framing formulas (int(block_dur*rate), hop bytes, min(budget, size), round(max_read*rate)), wrapper nesting and rejections. Concatenation equality is not computed.',
+         note=STRUCT_NOTE),
+    dict(id='C20', engine='E3-tokenizer + E6-effects', level='other', design_ref='DESIGN.md 4.20',
+         technique='static analysis: taint of per-run tokenizer state from an arbitrary previous state in the abstract interpreter; effect analysis (purity of validators, no module-level mutable state, fresh objects per split, close->rewind)',
+         text='Proves that no decision or delivered value of the tokenizer reads state left by an earlier run (all C01-C04 obligations hold from an arbitrary start), and decides purity / freshness / rewind facts structurally.',
+         note=TOK_NOTE),
+]
 _PENDING = 'check not built yet in this session (planned in DESIGN.md section 4); not claimed until its checker exists'
-NOT_APPLICABLE = [dict(property_id='C%02d' % i, reason=_PENDING) for i in range(5, 21)]
+_DONE = {c['id'] for c in CHECKS}
+NOT_APPLICABLE = [dict(property_id='C%02d' % i, reason=_PENDING) for i in range(5, 21) if 'C%02d' % i not in _DONE]
 NOTES = ('Technique family: static analysis only. Every check parses /repo/auditok/*.py on every run; nothing of auditok is imported or executed. '
          'Exit 0 pass / 1 VIOLATION / 2 ANALYSIS-ERROR or INCONCLUSIVE (never a silent pass). known_findings.json holds five fixed: entries (D1-D5).')
